@@ -101,6 +101,9 @@ func (gs GenesisState) Validate() error {
 	// Check for duplicated index in token pairs
 	tokenPairIndexMap := make(map[string]struct{})
 	for _, elem := range gs.TokenPairList {
+		if len(elem.RemoteToken) != BurnTokenLen {
+			return fmt.Errorf("remote token of a token pair must be %d bytes", BurnTokenLen)
+		}
 		index := string(TokenPairKey(elem.RemoteDomain, elem.RemoteToken))
 		if _, ok := tokenPairIndexMap[index]; ok {
 			return fmt.Errorf("duplicated index for token pairs")
